@@ -1,16 +1,19 @@
 #!/bin/bash
 # run_benign.sh <diff> [ID...] : apply a property-preserving change to /repo, run quick checks
 # (all by default); every check must still exit 0. Restores /repo.
+# VERIF_REPO / VERIF_HOME: a scratch worktree of /repo and a scratch copy of /verif made by tools/scratch_env.sh
+# (lets two regressions run side by side); default /repo and /verif.
+REPO="${VERIF_REPO:-/repo}"; HOME_V="${VERIF_HOME:-/verif}"
 P="$1"; shift
 IDS="$@"; [ -z "$IDS" ] && IDS="C01 C02 C03 C04 C07 C08 C09 C10 C11 C12 C13 C14 C15 C16 C17 C18 C19 C20"
-cd /repo && git diff --quiet || { echo "/repo has uncommitted changes"; exit 2; }
-git -C /repo apply "$P" || { echo "patch does not apply to /repo"; exit 2; }
+cd "$REPO" && git diff --quiet || { echo "$REPO has uncommitted changes"; exit 2; }
+git -C "$REPO" apply "$P" || { echo "patch does not apply to $REPO"; exit 2; }
 bad=0
 for id in $IDS; do
-  out=$(cd /verif && ./check $id --tier quick --no-evidence 2>&1); rc=$?
+  out=$(cd "$HOME_V" && ./check $id --tier quick --no-evidence 2>&1); rc=$?
   if [ $rc -ne 0 ]; then bad=1; echo "ALARM $id exit=$rc $(echo "$out" | grep -E "^VIOLATION|HARNESS" | tr '\n' ' ')"; fi
 done
-git -C /repo checkout -- .
+git -C "$REPO" checkout -- .
 [ $bad -eq 0 ] && echo "no alarm on $(basename $(dirname $P))/$(basename $P)"
-cd /verif/sim && cargo build --release --offline -q 2>/dev/null
+cd "$HOME_V/sim" && cargo build --release --offline -q 2>/dev/null
 exit $bad
